@@ -380,9 +380,17 @@ func observationMutants() int {
 	var e vaa.Address
 	e[31] = 0x42
 	msg := proch.Msg{Seq: 1, Payload: []byte{1}, Emitter: e, Chain: 2, Target: 255}
-	for _, size := range []int{1, 3, 19} {
-		for _, after := range []bool{false, true} {
+	for _, size := range []int{1, 3, 6, 19} {
+		for _, hist := range []string{"before", "after", "observed-setchange-reobserved"} {
+			after := hist != "before"
+			reobs := hist == "observed-setchange-reobserved"
 			cfg := proch.Config{Name: "obs", Sets: [][]int{rng(0, size), rng(1, size+1)}, OwnKey: 1, Msgs: []proch.Msg{msg}}
+			if size == 1 {
+				cfg.OwnKey = 0
+				if reobs {
+					continue
+				}
+			}
 			signer := size - 1
 			if after {
 				signer = 0
@@ -391,6 +399,17 @@ func observationMutants() int {
 			mkNode := func() *proch.Node {
 				nd := w.NewNode(cfg.OwnKey, 50)
 				nd.Step(proch.Set(0, cfg.Sets[0]...))
+				if reobs {
+					// the message is observed under set 0, the set changes (dropping key 0), the message is
+					// observed again: the applicable set for its digest is now set 1
+					nd.Step(msg.Pub())
+					nd.Step(proch.Set(1, cfg.Sets[1]...))
+					nd.Step(msg.Pub())
+					for len(nd.Pending) > 0 {
+						nd.TakeLoopback(0)
+					}
+					return nd
+				}
 				if after {
 					nd.Step(proch.Set(1, cfg.Sets[1]...))
 				}
@@ -404,7 +423,7 @@ func observationMutants() int {
 			try := func(what string, o *gossipv1.SignedObservation) {
 				n++
 				out := nd.Step(o)
-				c := hbCase{"observation", size, after, what}
+				c := hbCase{"observation/" + hist, size, after, what}
 				if out.Panic != nil {
 					r.Add("observation_mutant_panics_left_to_C13", 1)
 					nd.Close()
